@@ -178,7 +178,7 @@ class SymRun:
         for i in live:
             idv = Struct({0: U64(i)}, 'Id')
             sl = ex.call(self.M('EGraph::slots'), [self.egref, idv])
-            cls[i] = {'nslots': len(sl.items), 'gcount': self.group_count(i)}
+            cls[i] = {'nslots': len(sl.items), 'gcount': self.perm_count(i, idv), 'gcount_int': self.group_count(i)}
             if self.t.analysis != '()':
                 cls[i]['data'] = conc(dd(ex.call(self.M('EGraph::analysis_data'), [self.egref, idv])))
         snap['classes'] = cls
@@ -187,6 +187,18 @@ class SymRun:
         if getattr(self, 'extra', None): snap.update(self.extra); self.extra = None
         if op[0] == 'union': snap['union_ret'] = self.last_union
         self.snaps.append(snap)
+
+    def perm_count(self, i, idv):
+        """number of permutations of the class's slots under which the identity invocation stays equal (public API: eq)"""
+        ex = self.ex
+        ident = ex.call(self.M('EGraph::mk_identity_applied_id'), [self.egref, idv])
+        pairs = ident.f[1].f[0].items
+        n = len(pairs); cnt = 0
+        for perm in itertools.permutations(range(n)):
+            other = cp(ident)
+            for j in range(n): other.f[1].f[0].items[j].f[1] = cp(pairs[perm[j]].f[1])
+            if self.eq(ident, other): cnt += 1
+        return cnt
 
     def group_count(self, i):
         eg = self.eg['eg']
